@@ -2,6 +2,7 @@ import HdVerif.Proofs.FrameAccess
 import HdVerif.Proofs.Offsets
 import HdVerif.Proofs.OffsetsTie
 import HdVerif.Generated.T11e
+import HdVerif.Generated.T12b
 import HdVerif.Proofs.EncapBytes
 import HdVerif.Proofs.FramePaths
 /-! # C05  Every way of fetching stored frames returns the same pixels
@@ -519,6 +520,30 @@ theorem transform_forwards_every_decode_parameter :
        ("samples_per_pixel", "image.SamplesPerPixel"),
        ("transfer_syntax_uid", "image.file_meta.TransferSyntaxUID"),
        ("value", "frame")] := by decide
+
+
+/-- **What `decode_frame` hands to pydicom** (everything but the native 1-bit branch, which is T12): a one-frame dataset whose
+attributes are the parameters of the same meaning - value-preserving conversions only (`operator.index`, enum `.value`),
+HighBit = BitsStored - 1, PlanarConfiguration only for colour frames, the frame's bytes as they are (native) or as the single
+item of an encapsulated element.  Together with the three forwarding tables (`reader_forwards_every_decode_parameter`,
+`transform_forwards_every_decode_parameter`, T1b) every access path decodes frame `i` from the same bytes with the same
+description of the pixels.  (Table equality on regenerated lists: a trip-wire, changed by any edit of that glue.) -/
+theorem decode_dataset_mirrors_parameters :
+    decodeDatasetAttributes =
+      [("file_meta", "file_meta", ""), ("Rows", "rows", ""), ("Columns", "columns", ""),
+       ("SamplesPerPixel", "samples_per_pixel", ""), ("BitsAllocated", "bits_allocated", ""), ("BitsStored", "bits_stored", ""),
+       ("HighBit", "bits_stored - 1", ""), ("PixelRepresentation", "pixel_representation", ""),
+       ("PhotometricInterpretation", "photometric_interpretation", ""),
+       ("PlanarConfiguration", "planar_configuration", "samples_per_pixel > 1"),
+       ("PixelData", "encapsulate(frames=[value])", "is_encapsulated"), ("PixelData", "value", "not (is_encapsulated)")] ∧
+    decodeParameterConversions =
+      [("bits_allocated", ["operator.index(bits_allocated)"]), ("bits_stored", ["operator.index(bits_stored)"]),
+       ("columns", ["operator.index(columns)"]), ("index", ["operator.index(index)"]),
+       ("photometric_interpretation", ["PhotometricInterpretationValues(photometric_interpretation).value"]),
+       ("pixel_representation", ["PixelRepresentationValues(pixel_representation).value"]),
+       ("planar_configuration", ["PlanarConfigurationValues(planar_configuration).value"]),
+       ("rows", ["operator.index(rows)"]), ("samples_per_pixel", ["operator.index(samples_per_pixel)"])] := by
+  constructor <;> decide
 
 /-- **Every way of fetching a stored frame of a native 1-bit image returns slice `i`** - in one statement: single fetch
 in memory and lazily, by number and by index, an element of a batch, the fetch of `get_frames` and of the
